@@ -57,6 +57,9 @@ type node struct {
 	dir     string
 	spy     *spyChain
 	rec     *actRecorder
+	pk      types.PrivateKey
+	batch   int
+	log     *zap.Logger
 	closed  bool
 }
 
@@ -69,7 +72,6 @@ func seedKey(n uint64) types.PrivateKey {
 func newNode(t testing.TB, dir string, pk types.PrivateKey, network *consensus.Network, genesis types.Block, batch int) *node {
 	t.Helper()
 	core, logs := observer.New(zapcore.DebugLevel)
-	log := zap.New(core)
 	db, err := sqlite.OpenDatabase(filepath.Join(dir, "hostd.sqlite3"), zap.NewNop())
 	if err != nil {
 		t.Fatal("open store:", err)
@@ -79,17 +81,26 @@ func newNode(t testing.TB, dir string, pk types.PrivateKey, network *consensus.N
 		t.Fatal("chain store:", err)
 	}
 	cm := chain.NewManager(dbstore, tipState)
-	wm, err := cwallet.NewSingleAddressWallet(pk, cm, db)
+	rec := &actRecorder{}
+	n := &node{store: db, dbstore: dbstore, cm: cm, logs: logs, dir: dir, rec: rec, pk: pk, batch: batch, log: zap.New(core),
+		spy: &spyChain{Manager: cm, dbstore: dbstore, rec: rec}}
+	n.buildManagers(t)
+	return n
+}
+
+// buildManagers creates the wallet, the volume / contract / settings managers and the index manager on the node's
+// store and chain manager (also used to restart the host in the middle of a catch-up).
+func (n *node) buildManagers(t testing.TB) {
+	t.Helper()
+	wm, err := cwallet.NewSingleAddressWallet(n.pk, n.cm, n.store)
 	if err != nil {
 		t.Fatal("wallet:", err)
 	}
-	vm, err := storage.NewVolumeManager(db, storage.WithPruneInterval(time.Hour))
+	vm, err := storage.NewVolumeManager(n.store, storage.WithPruneInterval(time.Hour))
 	if err != nil {
 		t.Fatal("volumes:", err)
 	}
-	rec := &actRecorder{}
-	spy := &spyChain{Manager: cm, dbstore: dbstore, rec: rec}
-	con, err := contracts.NewManager(&spyStore{Store: db, rec: rec}, vm, spy, &spySyncer{rec: rec}, wm, contracts.WithRejectAfter(10), contracts.WithRevisionSubmissionBuffer(5), contracts.WithLog(log.Named("contracts")))
+	con, err := contracts.NewManager(&spyStore{Store: n.store, rec: n.rec}, vm, n.spy, &spySyncer{rec: n.rec}, wm, contracts.WithRejectAfter(10), contracts.WithRevisionSubmissionBuffer(5), contracts.WithLog(n.log.Named("contracts")))
 	if err != nil {
 		t.Fatal("contracts:", err)
 	}
@@ -97,15 +108,26 @@ func newNode(t testing.TB, dir string, pk types.PrivateKey, network *consensus.N
 	init.AcceptingContracts = true
 	init.NetAddress = "127.0.0.1"
 	init.WindowSize = 10
-	sm, err := settings.NewConfigManager(pk, db, cm, nopSyncer{}, vm, wm, settings.WithAnnounceInterval(10), settings.WithValidateNetAddress(false), settings.WithInitialSettings(init))
+	sm, err := settings.NewConfigManager(n.pk, n.store, n.cm, nopSyncer{}, vm, wm, settings.WithAnnounceInterval(10), settings.WithValidateNetAddress(false), settings.WithInitialSettings(init))
 	if err != nil {
 		t.Fatal("settings:", err)
 	}
-	idx, err := index.VerifNewManager(db, cm, con, wm, sm, vm, index.WithBatchSize(batch), index.WithLog(log.Named("index")))
+	idx, err := index.VerifNewManager(n.store, n.cm, con, wm, sm, vm, index.WithBatchSize(n.batch), index.WithLog(n.log.Named("index")))
 	if err != nil {
 		t.Fatal("index:", err)
 	}
-	return &node{store: db, dbstore: dbstore, cm: cm, w: wm, vm: vm, con: con, set: sm, idx: idx, logs: logs, dir: dir, spy: spy, rec: rec}
+	n.w, n.vm, n.con, n.set, n.idx = wm, vm, con, sm, idx
+}
+
+// restart stops the host's managers and starts new ones on the same store (process restart; the chain manager's
+// database survives).
+func (n *node) restart(t testing.TB) {
+	vhlib.Try(func() { n.idx.Close() })
+	vhlib.Try(func() { n.set.Close() })
+	vhlib.Try(func() { n.con.Close() })
+	vhlib.Try(func() { n.vm.Close() })
+	vhlib.Try(func() { n.w.Close() })
+	n.buildManagers(t)
 }
 
 func (n *node) close() {
@@ -255,9 +277,17 @@ func (sc *spyChain) AddV2PoolTransactions(basis types.ChainIndex, txns []types.V
 
 // sync lets the index manager catch up with the chain manager. Synchronous: the harness
 // calls the real syncDB; an error or panic is an observation, never a timeout.
-func (n *node) sync() string {
+func (n *node) sync() string { return n.syncStop(0) }
+
+// syncStop lets the index manager catch up; with k > 0 the catch-up is interrupted after k batches (the context is
+// cancelled from inside the k-th ProcessActions, i.e. after that batch was committed) and "stopped" is returned.
+func (n *node) syncStop(k int) string {
 	var err error
 	var stack string
+	ctx, cancel := context.WithCancel(context.Background())
+	defer cancel()
+	n.rec.cancelAfter, n.rec.cancel = k, cancel
+	defer func() { n.rec.cancelAfter, n.rec.cancel = 0, nil }()
 	panicked, msg := vhlib.Try(func() {
 		defer func() {
 			if r := recover(); r != nil {
@@ -268,9 +298,11 @@ func (n *node) sync() string {
 				panic(r)
 			}
 		}()
-		err = n.idx.VerifSync(context.Background())
+		err = n.idx.VerifSync(ctx)
 	})
 	switch {
+	case k > 0 && errors.Is(err, context.Canceled):
+		return "stopped"
 	case panicked:
 		return "panic:" + clip(msg) + " comp=" + component(stack)
 	case err != nil:
@@ -387,6 +419,7 @@ type world struct {
 	forkGen     int
 	t0          time.Time
 	midBatchRej int
+	stopAfter   int            // restart the host after this many batches of the next catch-up
 	refused     map[int]int    // contract -> lifecycle sets the pool refused
 	freshOK     map[int]int    // contract -> refused sets that a fresh pool over the same chain store accepted
 	freshRej    map[int]int    // contract -> refused sets that a fresh pool refused as well
@@ -1126,7 +1159,19 @@ func accContains(acc consensus.ElementAccumulator, elemHash types.Hash256, se ty
 
 // finish syncs the host, derives the updates and writes the line.
 func (w *world) finish(tr *vhlib.Trace, op string, pre string) {
-	res := w.host.sync()
+	res := "ok"
+	if w.stopAfter > 0 {
+		// the host is restarted between two batches of the catch-up
+		if res = w.host.syncStop(w.stopAfter); res == "stopped" {
+			w.host.restart(w.t)
+			tr.Count("restart:mid_catchup")
+			res = "ok"
+		}
+		w.stopAfter = 0
+	}
+	if res == "ok" {
+		res = w.host.sync()
+	}
 	toks, err := w.deriveUpdates()
 	if err != nil {
 		res = "harnesserr:" + clip(err.Error())
@@ -1231,8 +1276,12 @@ func (w *world) doMine(tr *vhlib.Trace, n int, to string, pool bool) {
 
 // doReorg replaces the last `depth` blocks of the host's best chain by `length` (> depth) blocks mined
 // on a second chain manager.
-func (w *world) doReorg(tr *vhlib.Trace, depth, length int, to string, carry bool) {
+func (w *world) doReorg(tr *vhlib.Trace, depth, length int, to string, carry bool, stop ...int) {
 	op := fmt.Sprintf("reorg depth=%d len=%d to=%s carry=%d", depth, length, to, vhlib.B01(carry))
+	if len(stop) > 0 && stop[0] > 0 {
+		op += fmt.Sprintf(" stop=%d", stop[0])
+		w.stopAfter = stop[0]
+	}
 	if w.dead {
 		return
 	}
